@@ -1,10 +1,10 @@
 use crate::wal::block::Block;
-use crate::wal::config::{DEFAULT_BLOCK_SIZE, MAX_ALLOC, MAX_FILE_SIZE, debug_print};
+use crate::wal::config::{BLOCKS_PER_FILE, DEFAULT_BLOCK_SIZE, MAX_ALLOC, MAX_FILE_SIZE, debug_print};
 use crate::wal::paths::WalPathManager;
 use crate::wal::storage::{SharedMmap, SharedMmapKeeper};
 use std::cell::UnsafeCell;
 use std::collections::HashMap;
-use std::sync::atomic::{AtomicBool, AtomicU16, Ordering};
+use std::sync::atomic::{AtomicBool, AtomicU16, AtomicU64, Ordering};
 use std::sync::{Arc, OnceLock, RwLock};
 
 use super::DELETION_TX;
@@ -13,6 +13,14 @@ pub(super) struct BlockAllocator {
     next_block: UnsafeCell<Block>,
     paths: Arc<WalPathManager>,
     lock: AtomicBool,
+    /// Block ids are positional: `file index * BLOCKS_PER_FILE + unit index in the file + 1`,
+    /// where the file index is the file's rank among the instance's WAL files in name order.
+    /// Recovery derives exactly the same ids from what is on disk, whatever blocks were handed
+    /// out but never written (a writer's unused initial block, the blocks of a rolled-back
+    /// batch) - counting blocks instead made the ids of everything behind such a block differ
+    /// after a restart from the ids persisted cursors hold. This is the base of the current
+    /// file (guarded by `lock` like `next_block`).
+    file_base: AtomicU64,
     /// Block ids are only unique within one instance (each allocator and each recovery starts
     /// at 1), while the block/file state trackers are process-wide: every tracker entry is
     /// keyed by this namespace (the instance's directory) together with the block id.
@@ -29,9 +37,25 @@ impl BlockAllocator {
             MAX_FILE_SIZE,
             DEFAULT_BLOCK_SIZE
         );
+        // rank of the new file = number of WAL files that sort before it
+        let existing = std::fs::read_dir(paths.root())
+            .map(|d| {
+                d.flatten()
+                    .filter(|e| {
+                        e.file_name()
+                            .to_str()
+                            .map(|n| !n.is_empty() && n.bytes().all(|b| b.is_ascii_digit()))
+                            .unwrap_or(false)
+                            && e.file_type().map(|t| !t.is_dir()).unwrap_or(true)
+                    })
+                    .count() as u64
+            })
+            .unwrap_or(1);
+        let file_base = existing.saturating_sub(1) * BLOCKS_PER_FILE;
         Ok(BlockAllocator {
+            file_base: AtomicU64::new(file_base),
             next_block: UnsafeCell::new(Block {
-                id: 1,
+                id: file_base + 1,
                 offset: 0,
                 limit: DEFAULT_BLOCK_SIZE,
                 used: 0,
@@ -78,10 +102,12 @@ impl BlockAllocator {
             data.file_path = new_path;
             data.mmap = new_mmap;
             data.offset = 0;
+            self.file_base.fetch_add(BLOCKS_PER_FILE, Ordering::AcqRel);
             data.used = 0;
             debug_print!("[alloc] rolled over to new file: {}", data.file_path);
         }
 
+        data.id = self.file_base.load(Ordering::Acquire) + data.offset / DEFAULT_BLOCK_SIZE + 1;
         // set the cur block as locked
         BlockStateTracker::register_block(&self.ns, data.id as usize, &data.file_path);
         FileStateTracker::register_file_if_absent(&data.file_path);
@@ -141,6 +167,7 @@ impl BlockAllocator {
             let prev_block_file_path = std::mem::replace(&mut data.file_path, new_path);
             data.mmap = new_mmap;
             data.offset = 0;
+            self.file_base.fetch_add(BLOCKS_PER_FILE, Ordering::AcqRel);
             // mark the previous file fully allocated now
             FileStateTracker::set_fully_allocated(prev_block_file_path);
             debug_print!(
@@ -148,6 +175,7 @@ impl BlockAllocator {
                 data.file_path
             );
         }
+        data.id = self.file_base.load(Ordering::Acquire) + data.offset / DEFAULT_BLOCK_SIZE + 1;
         let ret = Block {
             id: data.id,
             offset: data.offset,
@@ -192,22 +220,9 @@ impl BlockAllocator {
         self.lock.store(false, Ordering::Release);
     }
 
-    pub(super) unsafe fn fast_forward(&self, next_id: u64) {
-        self.lock();
-        let data = unsafe { &mut *self.next_block.get() };
-        if next_id > data.id {
-            let _diff = next_id - data.id;
-            data.id = next_id;
-            // Assume sequential blocks in current file
-            // This might be wrong if we spanned multiple files, but startup_chore
-            // should have handled file rollover by calling create_new_file?
-            // Actually startup_chore just scans.
-            // We need to ensure allocator points to a fresh location.
-            // If we just increment ID, offset remains 0 (in new file).
-            // This is fine! We want NEW blocks.
-            // We just want to avoid ID collision.
-        }
-        self.unlock();
+    pub(super) unsafe fn fast_forward(&self, _next_id: u64) {
+        // Ids are positional (see `file_base`): the file this allocator writes to sorts after
+        // every recovered file, so its ids are beyond all recovered ids already.
     }
 }
 
